@@ -15,7 +15,11 @@ from concurrent.futures import ThreadPoolExecutor
 
 VERIF = os.path.dirname(os.path.dirname(os.path.abspath(__file__)))
 REPO = os.environ.get('VERIF_REPO', '/repo')
-COQ = os.path.join(VERIF, 'coq')
+COQ = os.environ.get('VERIF_COQ') or os.path.join(VERIF, 'coq')
+WORKROOT = os.environ.get('VERIF_WORK') or os.path.join(VERIF, 'build')
+# evidence/replays of runs against scratch copies must not overwrite the
+# real ones
+OUTROOT = WORKROOT if os.environ.get('VERIF_WORK') else VERIF
 NPROC = os.cpu_count() or 4
 
 FORBIDDEN = re.compile(
@@ -100,6 +104,7 @@ def build(targets, timeout=1500):
             res['gen_failed'] = [{'item': 'translator',
                                   'reason': 'unparsable output'}]
             return res
+        write_coqproject()
         if not os.path.exists(os.path.join(COQ, 'Makefile')) or \
                 os.path.getmtime(os.path.join(COQ, 'Makefile')) < \
                 os.path.getmtime(os.path.join(COQ, '_CoqProject')):
@@ -114,6 +119,27 @@ def build(targets, timeout=1500):
         res['ok'] = (rc == 0)
         res['rc'] = rc
     return res
+
+
+def write_coqproject():
+    """ _CoqProject lists every .v under Model Spec Proofs Props Gen """
+    files = []
+    for sub in ('Model', 'Spec', 'Proofs', 'Props', 'Gen'):
+        d = os.path.join(COQ, sub)
+        if os.path.isdir(d):
+            files += sorted(f"{sub}/{f}" for f in os.listdir(d)
+                            if f.endswith('.v'))
+    text = ("-Q . SK\n-arg -w -arg -notation-overridden,-deprecated\n"
+            + "\n".join(files) + "\n")
+    path = os.path.join(COQ, '_CoqProject')
+    try:
+        with open(path, encoding='utf-8') as f:
+            if f.read() == text:
+                return
+    except OSError:
+        pass
+    with open(path, 'w', encoding='utf-8') as f:
+        f.write(text)
 
 
 def gen_info():
@@ -340,10 +366,10 @@ class Check:
         self.seed = seed
         self.rng = random.Random(seed * 1000003 + sum(map(ord, prop)))
         self.t0 = time.time()
-        self.work = os.path.join(VERIF, 'build', prop)
+        self.work = os.path.join(WORKROOT, prop)
         os.makedirs(self.work, exist_ok=True)
-        os.makedirs(os.path.join(VERIF, 'replays'), exist_ok=True)
-        os.makedirs(os.path.join(VERIF, 'evidence'), exist_ok=True)
+        os.makedirs(os.path.join(OUTROOT, 'replays'), exist_ok=True)
+        os.makedirs(os.path.join(OUTROOT, 'evidence'), exist_ok=True)
         self.violations = []      # dicts: kind, sig, detail, replay
         self.coverage = {'evaluations': 0, 'distinct_nontrivial': 0,
                          'samples': [], 'rule': '',
@@ -401,6 +427,19 @@ class Check:
                 if a.startswith('ERROR'):
                     self.broken.append({'obligation': f'Print Assumptions '
                                         f'{n}', 'why': a})
+        if b['ok'] and not self.quick:
+            mods = ['SK.' + p[:-2].replace('/', '.') for p in prop_files]
+            rc, out = sh(['coqchk', '-silent', '-o', '-Q', COQ, 'SK'] + mods,
+                         timeout=1500)
+            tail = out[out.find('CONTEXT SUMMARY'):][:3000] \
+                if 'CONTEXT SUMMARY' in out else out[-1500:]
+            self.coverage['coqchk'] = {'rc': rc, 'summary': tail}
+            self.coverage['obligations'] += 1
+            if rc == 0:
+                discharged += 1
+            else:
+                self.broken.append({'obligation': 'coqchk re-check',
+                                    'why': tail[-600:]})
         self.coverage['discharged'] = discharged
         self.coverage['trusted_base'] = list(TRUSTED_BASE)
         self.coverage['theorems'] = [n for _, n in names]
@@ -424,7 +463,7 @@ class Check:
 
     # -- reporting
     def replay_path(self, tag, n=0):
-        return os.path.join(VERIF, 'replays',
+        return os.path.join(OUTROOT, 'replays',
                             f"{self.prop}_{self.tier}_{self.seed}_{tag}_{n}"
                             ".json")
 
@@ -493,7 +532,7 @@ class Check:
               'assumptions': self.assumptions,
               'wall_s': round(time.time() - self.t0, 2),
               'violations': reported + (1 if rc and not reported else 0)}
-        path = os.path.join(VERIF, 'evidence', f"{self.prop}.json")
+        path = os.path.join(OUTROOT, 'evidence', f"{self.prop}.json")
         tmp = path + '.tmp'
         with open(tmp, 'w', encoding='utf-8') as f:
             json.dump(ev, f, indent=1, default=str, sort_keys=True)
